@@ -114,3 +114,26 @@ pub proof fn lemma_undo_inverts_forward(e: JournalEntry, a: Address, before: nat
     requires forward(e, a, before, after), before <= u256_max(), after <= u256_max(),
     ensures undo_one(e, a, after) == before,      //@ID lemma_undo_inverts_forward : C13
 {}
+
+// ---- the returned vector ----
+/// TRUSTED: std HashMap::into_iter yields every pair exactly once, in an unspecified order
+#[verifier::external_body] pub fn into_pairs<K, V>(m: HashMap<K, V>) -> (v: Vec<(K, V)>)
+    ensures forall|i: int| 0 <= i < v@.len() ==> #[trigger] m@.contains_key(v@[i].0) && m@[v@[i].0] == v@[i].1,
+        forall|k: K| #[trigger] m@.contains_key(k) ==> exists|i: int| 0 <= i < v@.len() && (#[trigger] v@[i]).0 == k,
+        forall|i: int, j: int| 0 <= i < j < v@.len() ==> (#[trigger] v@[i]).0 != (#[trigger] v@[j]).0,
+{ unimplemented!() }
+/// C13: a reported candidate is an account whose FIRST relevant debit is entry f, with its present balance and
+/// the balance reconstructed for the point just before f
+spec fn reported_at(d: DelegatedDebit, f: int, es: Seq<JournalEntry>, start: int, tx: TxEnv, state: Map<Address, Account>) -> bool {
+    counts(es, start, tx, state, f, d.address) && (forall|j: int| start <= j < f ==> !#[trigger] counts(es, start, tx, state, j, d.address))
+    && state.contains_key(d.address) && d.final_balance == state[d.address].info.balance
+    && d.balance_before@ == undo(es, f, es.len() as int, d.address, d.final_balance@)
+}
+spec fn reported(d: DelegatedDebit, es: Seq<JournalEntry>, start: int, tx: TxEnv, state: Map<Address, Account>) -> bool {
+    exists|f: int| #[trigger] reported_at(d, f, es, start, tx, state)
+}
+pub type K3Pair = (Address, usize);
+/// the pair (account, anchor) has its candidate in the output, unless the account is absent from the final state
+spec fn covered(out: Seq<DelegatedDebit>, p: (Address, usize), state: Map<Address, Account>) -> bool {
+    !state.contains_key(p.0) || exists|i: int| 0 <= i < out.len() && (#[trigger] out[i]).address == p.0
+}
